@@ -26,24 +26,72 @@ Theorem c16_mask_mean_is_deletion :
 Proof. intros K. exact (@mask_mean_is_deletion K). Qed.
 Print Assumptions c16_mask_mean_is_deletion.
 
-(* mask_is_deletion, covariance: holds for the formula WITH the train dimension masked
-   (fixes_proposed/C16_covar_mask.diff) ... *)
+(* batch mode under 'mask': _get_observed takes the AND over the batch elements, so the mask [ob]
+   may hide observed targets of an element as well.  For ANY mask covering the element's NaNs the
+   prediction is the posterior mean of the data set with the masked indices deleted; in
+   particular every batch element predicts as if the UNION of the missing indices were deleted
+   (the reading documented in settings.observation_nan_policy).  The covariance statements above
+   and below are already for an arbitrary mask. *)
+Theorem c16_mask_any_cover_mean_is_deletion :
+  forall (K : Fld) n t ob KJ muJ Aoinv (y : nvec),
+    (forall i, i < n -> ob i = true -> is_obs y i = true) ->
+    meq t 1 (pred_mean_mask n (Ksx n KJ) (sub n 0 muJ) (mean_cache_mask_ob n ob Aoinv (offset muJ y)))
+            (del_mean_ob n ob KJ muJ Aoinv y).
+Proof. intros K. exact (@mask_ob_mean_is_deletion K). Qed.
+Print Assumptions c16_mask_any_cover_mean_is_deletion.
+
+Theorem c16_batch_mask_mean_is_deletion :
+  forall (K : Fld) B n t (ys : nat -> nvec) b KJ muJ Aoinv, b < B ->
+    let ob := batch_observed B ys in
+    meq t 1 (pred_mean_mask n (Ksx n KJ) (sub n 0 muJ) (mean_cache_mask_ob n ob Aoinv (offset muJ (ys b))))
+            (del_mean_ob n ob KJ muJ Aoinv (ys b)).
+Proof. intros K. exact (@batch_mask_mean_is_deletion K). Qed.
+Print Assumptions c16_batch_mask_mean_is_deletion.
+
+(* mask_is_deletion / fill_is_deletion, covariance: [pred_cov] is exact_predictive_covar AS CODED
+   (has_missing dispatch; 'mask' restricts, 'fill' neutralises the train dimension; no NaN: C01's
+   formula on the full train covariance).  It is the deletion covariance for every n, t, NaN
+   pattern (none included) and either policy. *)
+Theorem c16_cov_is_deletion :
+  forall (K : Fld) n t p KJ S Ainv Aoinv Afinv (y : nvec),
+    let A := train_covar KJ S in let ob := is_obs y in
+    is_inverse n A Ainv ->
+    is_inverse n (fill_kernel ob A) Afinv ->
+    is_inverse (nobs n ob) (masked n n ob ob A) Aoinv ->
+    meq t t (pred_cov n p KJ Ainv Aoinv Afinv y) (del_cov n ob KJ Aoinv).
+Proof. intros K. exact (@pred_cov_is_deletion K). Qed.
+Print Assumptions c16_cov_is_deletion.
+
+(* the two branches separately (any mask [ob], not only one read off targets) *)
 Theorem c16_mask_cov_is_deletion :
   forall (K : Fld) n t ob KJ Aoinv,
     meq t t (cov_masked n ob KJ Aoinv) (del_cov n ob KJ Aoinv).
 Proof. intros K. exact (@mask_cov_is_deletion K). Qed.
 Print Assumptions c16_mask_cov_is_deletion.
 
-(* ... and is REFUTED for exact_predictive_covar as coded on the pinned tree (no mask: every
-   training row is used, NaN ones included).  Witness: n = 2, second target NaN, t = 1. *)
-Theorem c16_cov_as_coded_refuted :
+(* the result is the same whichever policy is active *)
+Theorem c16_cov_policy_irrelevant :
+  forall (K : Fld) n t KJ S Ainv Aoinv Afinv (y : nvec),
+    let A := train_covar KJ S in let ob := is_obs y in
+    is_inverse n A Ainv ->
+    is_inverse n (fill_kernel ob A) Afinv ->
+    is_inverse (nobs n ob) (masked n n ob ob A) Aoinv ->
+    meq t t (pred_cov n PMask KJ Ainv Aoinv Afinv y) (pred_cov n PFill KJ Ainv Aoinv Afinv y).
+Proof. intros K. exact (@pred_cov_policy_irrelevant K). Qed.
+Print Assumptions c16_cov_policy_irrelevant.
+
+(* the masking is NECESSARY: the covariance formula without it ([cov_unmasked_old] = the code
+   before "fix: posterior covariance ignores missing observations ...": every training row used,
+   NaN ones included) is not the deletion covariance.  Witness: n = 2, second target NaN, t = 1
+   (4/5 vs 7/8).  This is a statement about the OLD code's model, not about [pred_cov]. *)
+Theorem c16_cov_without_mask_differs :
   exists (n t : nat) (KJ S Ainv Aoinv : @M QcF) (y : @nvec QcF),
     symmetric (n + t) KJ /\
     is_inverse n (train_covar KJ S) Ainv /\
     is_inverse (nobs n (is_obs y)) (masked n n (is_obs y) (is_obs y) (train_covar KJ S)) Aoinv /\
-    ~ meq t t (cov_as_coded n KJ Ainv) (del_cov n (is_obs y) KJ Aoinv).
-Proof. exact cov_as_coded_refuted. Qed.
-Print Assumptions c16_cov_as_coded_refuted.
+    ~ meq t t (cov_unmasked_old n KJ Ainv) (del_cov n (is_obs y) KJ Aoinv).
+Proof. exact cov_unmasked_old_differs. Qed.
+Print Assumptions c16_cov_without_mask_differs.
 
 (* fill_is_deletion, the key fact: with off-diagonal entries of missing rows/columns zeroed
    (diagonal kept) the observed part of the solve is the solve of the deleted system, whatever
@@ -75,7 +123,7 @@ Theorem c16_fill_mean_is_deletion :
 Proof. intros K. exact (@fill_mean_is_deletion K). Qed.
 Print Assumptions c16_fill_mean_is_deletion.
 
-(* fill_is_deletion, covariance (repaired formula) *)
+(* fill_is_deletion, covariance: the 'fill' branch for any mask [ob] *)
 Theorem c16_fill_cov_is_deletion :
   forall (K : Fld) n t ob KJ S Afinv Aoinv,
     let A := train_covar KJ S in
@@ -133,7 +181,18 @@ Theorem c16_elp_fill_sum_is_deletion :
 Proof. intros K. exact (@elp_fill_sum_is_deletion K). Qed.
 Print Assumptions c16_elp_fill_sum_is_deletion.
 
-(* the hypotheses of the fill theorems are satisfiable (the refutation witness's data) *)
+(* the same for ANY pointwise term [g target index] (log_marginal, expected_log_prob of any
+   likelihood with independent noise, ...) and any fill value: entries and sum *)
+Theorem c16_pointwise_fill_is_deletion :
+  forall (K : Fld) n fv (y : nvec) (g : car -> nat -> car),
+    (forall a, a < nobs n (is_obs y) ->
+       pointwise_fill fv y g (sel (obs_list n (is_obs y)) a) = pointwise_del n y g a)
+    /\ (forall i, is_obs y i = false -> pointwise_fill fv y g i = f0)
+    /\ sum n (pointwise_fill fv y g) = sum (nobs n (is_obs y)) (pointwise_del n y g).
+Proof. intros K. exact (@pointwise_fill_is_deletion K). Qed.
+Print Assumptions c16_pointwise_fill_is_deletion.
+
+(* the hypotheses of the fill theorems are satisfiable (the data of c16_cov_without_mask_differs) *)
 Example ex_c16_fill_hypotheses :
   exists Afinv : @M QcF,
     is_inverse 2 (fill_kernel (is_obs wit_y) (train_covar wit_KJ wit_S)) Afinv /\
@@ -141,3 +200,17 @@ Example ex_c16_fill_hypotheses :
       (masked 2 2 (is_obs wit_y) (is_obs wit_y) (train_covar wit_KJ wit_S)) wit_Aoinv.
 Proof. exact ex_fill_hypotheses. Qed.
 Print Assumptions ex_c16_fill_hypotheses.
+
+(* ... and of c16_cov_is_deletion, with a missing target; on it the current code's covariance is
+   the deletion value 7/8 under both policies, the unmasked formula gives 4/5 *)
+Example ex_c16_pred_cov_witness :
+  is_inverse 2 (train_covar wit_KJ wit_S) wit_Ainv /\
+  is_inverse 2 (fill_kernel (is_obs wit_y) (train_covar wit_KJ wit_S)) wit_Afinv /\
+  is_inverse (nobs 2 (is_obs wit_y))
+    (masked 2 2 (is_obs wit_y) (is_obs wit_y) (train_covar wit_KJ wit_S)) wit_Aoinv /\
+  has_missing 2 wit_y = true /\
+  pred_cov 2 PMask wit_KJ wit_Ainv wit_Aoinv wit_Afinv wit_y O O = q7_8 /\
+  pred_cov 2 PFill wit_KJ wit_Ainv wit_Aoinv wit_Afinv wit_y O O = q7_8 /\
+  cov_unmasked_old 2 wit_KJ wit_Ainv O O = q4_5.
+Proof. exact ex_pred_cov_witness. Qed.
+Print Assumptions ex_c16_pred_cov_witness.
